@@ -142,6 +142,15 @@ def swap_args(ck, prog):
                         a[2].fields[0] != p.extra['offer'], a[3].fields[0] != ret + sw + pr + bu, a[4].fields[0] != sp)
             ck.oblige('C15.swap.args.' + cfg, p, bad, 'swap checks slippage on (offer, return + fees, spread) with the caller\'s limits')
         ck.require(n >= 1, 'swap never reached assert_max_spread (%s)' % cfg)
+        # with the real kernel: whatever compute_swap yields (a zero spread or a zero return included), an accepted swap went through the check
+        def spy_ams(it, a, c):
+            it.extra['ams_called'] = True
+            return it.run(it.prog.get(AMS), list(a))
+        m = 0
+        for p in ck.explore(prog, swap_body(kinds, oi, belief=True), 'swap_checked.%s' % cfg, stubs={AMS: spy_ams}):
+            if p.ok: m += 1
+            ck.oblige('C15.swap.always_checked.' + cfg, p, p.ok and not p.extra.get('ams_called'), 'no swap is accepted without the slippage check having been applied')
+        ck.require(m >= 1, 'swap (real kernel, %s): no Ok path' % cfg)
 
 
 RT = 'terraswap_router'
